@@ -30,11 +30,13 @@ def run_case(c):
         members = list(Days)
         for size in range(0, 8):
             for combo in itertools.combinations(members, size):
-                for form in (set(combo), list(combo), tuple(reversed(combo))):
+                for form in (set(combo), list(combo), tuple(reversed(combo)), frozenset(combo)):
                     r = enc(form)
                     n += 1
                     if not r["ok"]:
-                        r.update(evaluations=n, case={"prop": "C12", "kind": "encode", "inputs": {"days": canon(form)}})
+                        shown = set(form) if isinstance(form, frozenset) else form
+                        r.update(evaluations=n, detail="input form " + type(form).__name__,
+                                 case={"prop": "C12", "kind": "encode", "inputs": {"days": canon(shown)}})
                         return r
                 if combo:
                     h = weekdays_to_hexadecimal(set(combo))
